@@ -1319,14 +1319,23 @@ pub async fn run_multi_path(idx: usize, hist: &Value, scratch: &Path, out: &mut 
         2 => ("fs", "db"),
         _ => ("db", "fs"),
     };
-    let names = vec!["a".to_string(), "b".to_string()];
+    // the devices are the replicas the model names (other than the server)
+    let mut names: Vec<String> = hist[0]["lens"]
+        .as_object()
+        .map(|o| o.keys().filter(|k| *k != "srv").cloned().collect())
+        .unwrap_or_default();
+    if names.is_empty() {
+        names = vec!["a".to_string(), "b".to_string()];
+    }
+    names.sort();
     let world = SyncWorld::new(&dir, &names, cb, sb).await?;
     let inputs = dir.join("inputs");
     std::fs::create_dir_all(&inputs)?;
     let mut made: BTreeMap<String, VaultId> = BTreeMap::new();
     let mut counter = 0u32;
     out.evaluated += 1;
-    let replica_names = ["a", "b", "srv"];
+    let mut replica_names: Vec<String> = names.clone();
+    replica_names.push("srv".to_string());
     let snapshot = |sts: &Vec<(String, SyncStatus)>, made: &BTreeMap<String, VaultId>| -> BTreeMap<String, BTreeMap<String, (String, usize)>> {
         sts.iter()
             .map(|(n, st)| {
@@ -1503,7 +1512,7 @@ pub async fn run_multi_path(idx: usize, hist: &Value, scratch: &Path, out: &mut 
         }
         let model_now = &step["lens"];
         if let Some(pm) = &prev_model {
-            for r in replica_names {
+            for r in replica_names.iter().map(|s| s.as_str()) {
                 let keys: std::collections::BTreeSet<String> = model_now[r]
                     .as_object()
                     .map(|o| o.keys().cloned().collect())
@@ -1598,11 +1607,11 @@ pub async fn run_multi_path(idx: usize, hist: &Value, scratch: &Path, out: &mut 
         let mut account = d.account.lock().await;
         served.push(crate::archive_world::account_snapshot(&mut account).await?);
     }
-    if served.len() == 2 && served[0]["attachments"]["named_by_file_log"] != served[1]["attachments"]["named_by_file_log"] {
+    if served.len() >= 2 && served.windows(2).any(|w| w[0]["attachments"]["named_by_file_log"] != w[1]["attachments"]["named_by_file_log"]) {
         out.violation(format!("{cb}/{sb}: the devices' file logs name different files after convergence"), json!({"case": hist, "idx": idx}));
     }
     let strip = |v: &Value| { let mut v = v.clone(); if let Some(o) = v.as_object_mut() { o.remove("attachments"); } v };
-    if served.len() == 2 && strip(&served[0]) != strip(&served[1]) {
+    if served.len() >= 2 && served.windows(2).any(|w| strip(&w[0]) != strip(&w[1])) {
         out.violation(
             format!("{cb}/{sb}: the devices serve different folders after convergence: a={} b={}", strip(&served[0]), strip(&served[1])),
             json!({"case": hist, "idx": idx}),
